@@ -150,6 +150,8 @@ type Run struct {
 	Step int
 	// SubStep is the index of the sub-channel step being executed (-1 outside).
 	SubStep int
+	// Stalled describes a request between honest parties that timed out while the world was at rest.
+	Stalled string
 	reqs    map[string]string // update requests handed to a client: "id|version" -> description
 	answers map[string]bool   // "id|version" answered with an accept or a reject message
 }
@@ -275,6 +277,19 @@ func (r *Run) Open() bool {
 	return true
 }
 
+// noteStall records a request that gave up although nothing had moved in the world for most of
+// its patience (the parties' timeout): the protocol was stuck, not slow.
+func (r *Run) noteStall(what string) {
+	patience := r.P[0].Timeout
+	if q := r.W.QuietFor(); patience >= 10*time.Second && q > patience*2/3 {
+		r.mu.Lock()
+		if r.Stalled == "" {
+			r.Stalled = fmt.Sprintf("%s gave up after %v although nothing had moved for %v: every message had been delivered and no party was active", what, patience, q.Round(time.Second))
+		}
+		r.mu.Unlock()
+	}
+}
+
 func clamp(want int64, have *big.Int) int64 {
 	if have.IsInt64() && have.Int64() < want {
 		return have.Int64()
@@ -285,6 +300,7 @@ func clamp(want int64, have *big.Int) int64 {
 func (r *Run) fail(what string, err error) {
 	if isTimeout(err) {
 		r.TimedOut = true
+		r.noteStall(what)
 	}
 	r.Failed = what + ": " + err.Error()
 }
@@ -456,6 +472,9 @@ func (r *Run) Settle() {
 				break
 			}
 			time.Sleep(2 * time.Millisecond)
+		}
+		if isTimeout(err) {
+			r.noteStall(r.P[i].Name + ".Settle")
 		}
 		r.mu.Lock()
 		r.SettleErr[i] = err
